@@ -16,7 +16,14 @@ Definition run_bind (x : sig Z * call Z) : J :=
   let '(s, c) := x in
   JL [specJ s c;
       match lib_getcallargs s c with LOk r => bindingJ r | LErr e => JErr e end;
-      match lib_getcallargs s c with LOk r => specJ s (call_with_callargs s r) | LErr e => JErr e end].
+      match lib_getcallargs s c with
+      | LOk r =>
+          (* an invalid call can leave an int under the varargs / varkw name: unpacking an int raises TypeError *)
+          let is_bv := fun k => match aget k r with Some (BV _) => true | _ => false end in
+          if (varargs s && is_bv VARGS) || (varkw s && is_bv VKW) then JErr "TypeError"
+          else specJ s (call_with_callargs s r)
+      | LErr e => JErr e
+      end].
 
 Definition tag_name (t : tag) : string :=
   match t with TTry => "try_value" | TBack => "try_back" | TKws => "kwargs_support" | TCache => "cache_func" | TLoop => "loops" | TPd => "pd2np" end.
